@@ -21,8 +21,10 @@ import (
 	"net/url"
 	"os"
 	"path"
+	"sort"
 	"strconv"
 	"strings"
+	"time"
 
 	"github.com/martian-lang/martian/martian/core"
 	"github.com/martian-lang/martian/martian/util"
@@ -232,6 +234,8 @@ func runC11(c *Ctx) {
 	c11Parser(c)
 	c11Compiled(c)
 	c11World(c)
+	c11Find(c)
+	c11Attempts(c)
 }
 
 // ---------- 1. keys ----------
@@ -1348,4 +1352,359 @@ func forkTableStrings(tab []c11ForkRec) []string {
 		out = append(out, fmt.Sprintf("position %d: %s", i, fr.names.Id))
 	}
 	return out
+}
+
+// ---------- 6. Node.find on trees with overlapping names ----------
+
+const c11FindTemplate = `
+stage %[1]s(
+    in  int x,
+    out int y,
+    src comp "x",
+)
+
+stage %[2]s(
+    in  int x,
+    out int y,
+    src comp "x",
+)
+
+pipeline %[3]s(
+    in  int x,
+    out int y,
+)
+{
+    call %[1]s(
+        x = self.x,
+    )
+    call %[2]s(
+        x = %[1]s.y,
+    )
+    return (
+        y = %[2]s.y,
+    )
+}
+
+pipeline %[4]s(
+    in  int x,
+    out int y,
+)
+{
+    call %[3]s(
+        x = self.x,
+    )
+    call %[1]s(
+        x = %[3]s.y,
+    )
+    call %[2]s(
+        x = %[1]s.y,
+    )
+    return (
+        y = %[2]s.y,
+    )
+}
+
+pipeline %[5]s(
+    in  int x,
+    out int y,
+)
+{
+    call %[4]s(
+        x = self.x,
+    )
+    call %[3]s(
+        x = %[4]s.y,
+    )
+    call %[1]s(
+        x = %[3]s.y,
+    )
+    call %[2]s(
+        x = %[1]s.y,
+    )
+    return (
+        y = %[2]s.y,
+    )
+}
+
+call %[5]s(
+    x = 1,
+)
+`
+
+// c11Find: node trees in which one node's id overlaps another's as a suffix or
+// prefix (TOP / SUBTOP / SUBSUBTOP, X / XX / XXX, stage ids repeated at every
+// depth, a pipestance id equal to a pipeline name).  For EVERY node the
+// journal name of the node (fqid without the ID.<pipestance>. prefix) and the
+// full fqid must be found as exactly that node — repeated, because the
+// children are visited in Go map order — and no proper suffix / prefix /
+// infix of a name may be found at all.  Then one notification per stage is
+// sent through the real journal and must be recorded for that stage only.
+func c11Find(c *Ctx) {
+	r := c.Res
+	type names struct{ a, b, s2, s1, t, psid string }
+	sets := []names{
+		{"WORK_A", "A", "SUBSUBTOP", "SUBTOP", "TOP", "ps"},
+		{"X_", "_X", "XXX", "XX", "X", "X"},
+		{"fork0", "K", "OP", "P", "TOP", "TOP"},
+		{"B", "AB", "PIPE_PIPE", "_PIPE", "PIPE", "ID"},
+	}
+	reps := 40
+	if c.Thorough {
+		reps = 400
+	}
+	for si, ns := range sets {
+		dir := path.Join(c.Scratch, fmt.Sprintf("find%d", si))
+		os.MkdirAll(path.Join(dir, "journal"), 0o755)
+		w, err := core.VerifNewWorld(fmt.Sprintf(c11FindTemplate, ns.a, ns.b, ns.s2, ns.s1, ns.t), ns.psid, dir)
+		if err != nil {
+			r.note("find scenario %d: cannot build world: %v", si, err)
+			continue
+		}
+		r.hist("find_trees")
+		top := "ID." + ns.psid
+		fqids := w.Fqids()
+		trimmed := map[string]string{} // journal name -> fqid
+		isNode := map[string]bool{}
+		for _, fq := range fqids {
+			trimmed[strings.TrimPrefix(fq, top+".")] = fq
+			isNode[fq] = true
+		}
+		// probes: every node's journal name and full id (must be found, exactly), and every
+		// proper substring cut of them (must not be found unless it is itself a node's name)
+		probes := map[string]bool{}
+		for _, fq := range fqids {
+			n := strings.TrimPrefix(fq, top+".")
+			for _, s := range []string{n, fq} {
+				probes[s] = true
+				for i := 1; i < len(s); i++ {
+					probes[s[i:]] = true
+					probes[s[:i]] = true
+				}
+			}
+			probes[n+"."] = true
+			probes["."+n] = true
+			probes[top+n] = true
+		}
+		var plist []string
+		for p := range probes {
+			plist = append(plist, p)
+		}
+		sort.Strings(plist)
+		var reqs [][]string
+		for _, p := range plist {
+			reqs = append(reqs, []string{"C11.find", hx(top), hxList(fqids), hx(p)})
+		}
+		mreps := c.Drv.AskBatch(reqs)
+		for pi, p := range plist {
+			want := ""
+			if fq, ok := trimmed[p]; ok {
+				want = fq
+			} else if isNode[p] {
+				want = p
+			}
+			r.count("find:"+top+":"+strings.Join(fqids, ",")+":"+p, want != "")
+			n := 3
+			if want != "" {
+				n = reps
+			}
+			for k := 0; k < n; k++ {
+				got := w.VerifFind(p)
+				if got != want {
+					exp := want
+					if exp == "" {
+						exp = "no node"
+					}
+					r.violate(Violation{Kind: "property", Key: "C11:find-wrong-node",
+						What:  "Node.find(name) does not return exactly the node with that (journal) name",
+						Input: map[string]interface{}{"pipestance": top, "nodes": fqids, "name": p},
+						Impl:  got, Expect: exp, Broken: "find_routes / find_exact"})
+					break
+				}
+			}
+			m := "none"
+			if want != "" {
+				m = "some " + hx(want)
+			}
+			if mreps[pi] != m {
+				r.violate(Violation{Kind: "correspondence", Key: "C11:find-model-mismatch", What: "Lean findNode differs from the expected exact-match node",
+					Input: map[string]interface{}{"pipestance": top, "nodes": fqids, "name": p}, Model: mreps[pi], Expect: m, Broken: "correspondence C11.find"})
+			}
+		}
+		// end to end: one fork per stage node, one notification per stage, repeated
+		var stages []string
+		for _, fq := range fqids {
+			if strings.HasSuffix(fq, "."+ns.a) || strings.HasSuffix(fq, "."+ns.b) {
+				if _, err := w.AddFork(fq, nil, 1); err == nil {
+					stages = append(stages, fq)
+				}
+			}
+		}
+		rounds := 4
+		if c.Thorough {
+			rounds = 30
+		}
+		for k := 0; k < rounds; k++ {
+			for _, fq := range stages {
+				runFile := w.RunFile(fq, 0, "chunk", 0)
+				md := core.NewMetadataRunWithJournalPath(path.Base(runFile), "", "", path.Dir(runFile), "main")
+				if err := md.UpdateJournal(core.CompleteFile); err != nil {
+					r.note("UpdateJournal(%s): %v", runFile, err)
+					continue
+				}
+				w.ClearSeen()
+				if err := w.Refresh(); err != nil {
+					r.violate(Violation{Kind: "property", Key: "C11:refresh-panic", What: "Node.refreshState panicked: " + err.Error(), Input: runFile})
+					continue
+				}
+				seen := w.Seen()
+				expect := []core.VerifSeen{{Fqid: fq, Fork: 0, Job: "chunk", Chunk: 0, Name: "complete"}}
+				r.count(fmt.Sprintf("find-notify:%d:%s", si, fq), true)
+				r.hist("find_notifications")
+				if fmt.Sprint(seen) != fmt.Sprint(expect) {
+					r.violate(Violation{Kind: "property", Key: "C11:misroute:wrong-node",
+						What:  "a notification written for a job of one node is not recorded for exactly that node's job",
+						Input: map[string]interface{}{"pipestance": top, "nodes": fqids, "journal_file": path.Base(runFile) + ".complete"},
+						Impl:  seen, Expect: expect, Broken: "find_routes / notification_reaches_owner"})
+				}
+			}
+		}
+		os.RemoveAll(dir)
+	}
+}
+
+// ---------- 7. attempts: a reset job gets a new identity; stragglers of the old attempt are ignored ----------
+
+func c11Notify(runFile, runType, file string) error {
+	md := core.NewMetadataRunWithJournalPath(path.Base(runFile), "", "", path.Dir(runFile), runType)
+	return md.UpdateJournal(core.MetadataFileName(file))
+}
+
+func c11Attempts(c *Ctx) {
+	r := c.Res
+	dir := path.Join(c.Scratch, "attempts")
+	os.MkdirAll(path.Join(dir, "journal"), 0o755)
+	defer os.RemoveAll(dir)
+	w, err := core.VerifNewWorld(fmt.Sprintf(c11MroTemplate, "ST", "SP", "PIPE"), "ps", dir)
+	if err != nil {
+		r.note("attempts: cannot build world: %v", err)
+		return
+	}
+	fqPlain, fqSplit := "ID.ps.TOP.PIPE.ST", "ID.ps.TOP.PIPE.SP"
+	for _, fq := range []string{fqPlain, fqSplit} {
+		nch := 1
+		if fq == fqSplit {
+			nch = 11
+		}
+		for i := 0; i < 2; i++ {
+			if _, err := w.AddFork(fq, []c11Part{{Kind: "arr", Index: i, Len: 2, Static: true}}, nch); err != nil {
+				r.note("attempts: AddFork: %v", err)
+				return
+			}
+		}
+	}
+	runType := map[string]string{"split": "split", "join": "join", "chunk": "main"}
+	jobs := []c11Job{{fqPlain, 0, "chunk", 0}, {fqSplit, 0, "split", -1}, {fqSplit, 0, "chunk", 0}, {fqSplit, 0, "chunk", 10}, {fqSplit, 0, "join", -1}}
+	fail := func(j c11Job, a core.VerifAttempt) bool {
+		if err := c11Notify(a.RunFile, runType[j.job], "errors"); err != nil {
+			r.note("attempts: %v", err)
+			return false
+		}
+		if err := w.Refresh(); err != nil {
+			r.note("attempts: refresh: %v", err)
+			return false
+		}
+		if st := w.JobState(j.fqid, j.fork, j.job, j.chunk); st != "failed" {
+			r.note("attempts: job %v is %q after an errors notification", j, st)
+			return false
+		}
+		return true
+	}
+	// (a) same-second reset (recorded, not required to differ: makeUniquifier is pid + unix seconds)
+	{
+		j := c11Job{fqSplit, 1, "chunk", 0}
+		for time.Now().Nanosecond() > 600e6 { // leave room within the current second
+			time.Sleep(20 * time.Millisecond)
+		}
+		sec := time.Now().Unix()
+		a1, err := w.StartAttempt(j.fqid, j.fork, j.job, j.chunk)
+		if err == nil && fail(j, a1) {
+			if err := w.ResetFork(j.fqid, j.fork); err == nil {
+				a2, _ := w.Attempt(j.fqid, j.fork, j.job, j.chunk)
+				if time.Now().Unix() == sec {
+					if a2.Uniquifier == a1.Uniquifier {
+						r.hist("attempt_reset_same_second_same_uniquifier")
+						r.note("finding candidate (not counted as a violation): a job reset within the same clock second as its failed attempt started gets the SAME uniquifier %s (makeUniquifier = pid + unix seconds): directory %s and journal prefix %s are reused, so a straggler of the failed attempt is indistinguishable from the retry", a1.Uniquifier, a2.Path, path.Base(a2.RunFile))
+					} else {
+						r.hist("attempt_reset_same_second_new_uniquifier")
+					}
+				}
+			}
+		}
+	}
+	// (b) the retry happens in a later clock second: the new attempt must have a new identity
+	first := map[c11Job]core.VerifAttempt{}
+	for _, j := range jobs {
+		a, err := w.StartAttempt(j.fqid, j.fork, j.job, j.chunk)
+		if err != nil || a.Uniquifier == "" {
+			r.note("attempts: StartAttempt(%v): %v %+v", j, err, a)
+			return
+		}
+		first[j] = a
+	}
+	sec := time.Now().Unix()
+	for _, j := range jobs {
+		if !fail(j, first[j]) {
+			return
+		}
+	}
+	for time.Now().Unix() == sec {
+		time.Sleep(10 * time.Millisecond)
+	}
+	for _, fq := range []string{fqPlain, fqSplit} {
+		if err := w.ResetFork(fq, 0); err != nil {
+			r.violate(Violation{Kind: "property", Key: "C11:reset-failed", What: "Fork.resetPartial failed: " + err.Error(), Input: fq})
+			return
+		}
+	}
+	for _, j := range jobs {
+		a1 := first[j]
+		a2, _ := w.Attempt(j.fqid, j.fork, j.job, j.chunk)
+		r.count(fmt.Sprintf("attempt:%v", j), true)
+		r.hist("attempt_resets")
+		if a2.Uniquifier == "" || a2.Uniquifier == a1.Uniquifier || a2.Path == a1.Path || a2.RunFile == a1.RunFile {
+			r.violate(Violation{Kind: "property", Key: "C11:attempt-identity-reused",
+				What:  "the retry of a failed job (Fork.resetPartial, started in a later clock second) reuses the failed attempt's uniquifier: same metadata directory and same journal name, so notifications cannot be attributed to the attempt that wrote them",
+				Input: map[string]interface{}{"job": j.String(), "history": "StartAttempt; errors notification; refresh; (next second) Fork.resetPartial"},
+				Impl:  map[string]interface{}{"attempt1": a1, "attempt2": a2}, Expect: "a different uniquifier, directory and journal prefix", Broken: "render_injective / stale_uniquifier_ignored"})
+		}
+		// a straggler of attempt 1 reports after the reset: must be ignored
+		w.ClearSeen()
+		if err := c11Notify(a1.RunFile, runType[j.job], "complete"); err != nil {
+			r.note("attempts: %v", err)
+			continue
+		}
+		if err := w.Refresh(); err != nil {
+			r.note("attempts: refresh: %v", err)
+			continue
+		}
+		if seen := w.Seen(); len(seen) != 0 {
+			r.violate(Violation{Kind: "property", Key: "C11:stale-attempt-accepted",
+				What: "a completion written by the failed first attempt of a job after the job was reset is recorded as a completion of the retry",
+				Input: map[string]interface{}{"job": j.String(), "journal_file": path.Base(a1.RunFile) + "." + map[string]string{"split": "split_", "join": "join_", "chunk": ""}[j.job] + "complete",
+					"attempt1": a1, "attempt2": a2},
+				Impl: seen, Expect: "ignored (Metadata.cache: foreign uniquifier)", Broken: "stale_uniquifier_ignored"})
+		}
+		// the retry's own completion is recorded
+		w.ClearSeen()
+		if err := c11Notify(a2.RunFile, runType[j.job], "complete"); err == nil {
+			w.Refresh()
+			seen := w.Seen()
+			expect := []core.VerifSeen{{Fqid: j.fqid, Fork: j.fork, Job: j.job, Chunk: j.chunk, Name: "complete"}}
+			if fmt.Sprint(seen) != fmt.Sprint(expect) {
+				r.violate(Violation{Kind: "property", Key: "C11:notification-lost:retry",
+					What: "the completion of the retried attempt is not recorded for exactly that job", Input: map[string]interface{}{"job": j.String(), "attempt2": a2},
+					Impl: seen, Expect: expect, Broken: "notification_reaches_owner"})
+			}
+		}
+	}
 }
